@@ -151,9 +151,11 @@ def state_fields_of(db, rec_q):
 
 def check_init(chk, db):
     n = 0
-    for rq in INIT_RECORDS:
+    nested_owners = [r.get("q") or (r["parent"] + "::" + r["n"]) for r in db.records if r.get("parent") in INIT_RECORDS]
+    for rq in INIT_RECORDS + nested_owners:
         if not db.rec_by_q.get(rq):
-            chk.analysis_broken("INIT: class %s no longer exists" % rq)
+            if rq in INIT_RECORDS:
+                chk.analysis_broken("INIT: class %s no longer exists" % rq)
             continue
         per_rec = state_fields_of(db, rq)
         for owner_q, fields in sorted(per_rec.items()):
@@ -168,7 +170,16 @@ def check_init(chk, db):
                 ty = fd["ty"]
                 nested = [r["n"] for r in db.records if r.get("parent") == owner_q]
                 al_txt = " ".join(a["ty"] for a in rec.get("aliases", []) if a["n"] == db.strip_type(ty).split("::")[-1])
-                if "[" in ty or db.resolve_type(ty, owner_q) is not None or any(n in al_txt for n in nested):
+                aggregate = False
+                rt = db.resolve_type(ty, owner_q)
+                if rt is not None and not "[" in ty:
+                    rr = db.record(rt[0] if isinstance(rt, tuple) else rt)
+                    # an aggregate without constructors and without default member initialisers (etl::array) is left
+                    # indeterminate by default-initialisation: as observer-visible state it needs its own initialiser
+                    if rr is not None and not [m for m in rr["methods"] if m["kind"] == "ctor"] and rr["fields"] and \
+                            not any("nsdmi" in x for x in rr["fields"]) and owner_q in nested_owners:
+                        aggregate = True
+                if not aggregate and ("[" in ty or rt is not None or any(n in al_txt for n in nested)):
                     continue   # raw storage arrays and class-type members (initialised by their own constructors)
                 construct = "%s::%s" % (owner_q, fd["n"])
                 chk.instance("INIT")
@@ -204,7 +215,9 @@ def check_init(chk, db):
                             l0 = astx.strip_casts(st["e"]["l"])
                             if l0.get("k") == "mem" and astx.is_this(l0.get("b")) and l0["n"] == fd["n"]:
                                 assigned = True
-                    if not assigned:
+                    if aggregate:
+                        assigned = False      # a store to one element does not initialise the others
+                    if not assigned and not aggregate:
                         # stored through a member function called unconditionally (set_size(...)) ?
                         b = P.Builder(db, max_depth=3, versioning=False)
                         prog, ctx = b.build(f)
